@@ -37,7 +37,70 @@ const (
 	// of the pair (compression, checksums).  What is stored differs in length
 	// from what is in memory.
 	CBFramed = 1 << 9
+	// CBValFramed (not neutral either): the ItemValLength / ItemValWrite /
+	// ItemValRead triple stores each value with the same two-byte trailer:
+	// ItemValLength answers len(Val)+2, ItemValWrite writes the value and then
+	// the trailer (two file calls), ItemValRead reads the stored bytes, verifies
+	// and strips the trailer.  Here the library's byte totals are specified
+	// (key length + ItemValLength, in memory and on file alike) and compared.
+	CBValFramed = 1 << 10
 )
+
+// AnyFramed: what is stored differs from what is in memory.
+const AnyFramed = CBFramed | CBValFramed
+
+func valFramedLength(c *gkvlite.Collection, i *gkvlite.Item) int { return len(i.Val) + 2 }
+
+func valFramedWrite(c *gkvlite.Collection, i *gkvlite.Item, wr io.WriterAt, offset int64) error {
+	if len(i.Val) > 0 {
+		if _, err := wr.WriteAt(i.Val, offset); err != nil {
+			return err
+		}
+	}
+	_, err := wr.WriteAt([]byte{byte(len(i.Val)), frameSum(i.Val)}, offset+int64(len(i.Val)))
+	return err
+}
+
+func valFramedRead(c *gkvlite.Collection, i *gkvlite.Item, r io.ReaderAt, offset int64, valLength uint32) error {
+	buf := make([]byte, valLength)
+	if _, err := r.ReadAt(buf, offset); err != nil {
+		return err
+	}
+	body, err := Unframe(buf)
+	if err != nil {
+		return err
+	}
+	i.Val = body
+	return nil
+}
+
+// imageCallbacks adds to cb what a fresh store needs to read (and, if write is
+// set, to extend) an image written under the World's transforming callbacks.
+func (w *World) imageCallbacks(cb *gkvlite.StoreCallbacks, write bool) {
+	if w.CBMask&CBFramed != 0 {
+		cb.AfterItemRead = unframeAfterRead
+		if write {
+			cb.BeforeItemWrite = func(c *gkvlite.Collection, i *gkvlite.Item) (*gkvlite.Item, error) { return FrameItem(i), nil }
+		}
+	}
+	if w.CBMask&CBValFramed != 0 {
+		cb.ItemValLength, cb.ItemValRead = valFramedLength, valFramedRead
+		if write {
+			cb.ItemValWrite = valFramedWrite
+		}
+	}
+}
+
+// normBytes maps a byte total reported by the library to what the model counts.
+func (w *World) normBytes(b, wb, n uint64) uint64 {
+	if w.CBMask&CBFramed != 0 {
+		return wb // byte totals mix stored and in-memory lengths under a transforming pair: not specified, not compared
+	}
+	if w.CBMask&CBValFramed != 0 && b >= 2*n {
+		return b - 2*n // every item counts its two trailer bytes
+	}
+	return b
+}
 
 // FrameItem returns the copy of i that is written to the file under CBFramed.
 func FrameItem(i *gkvlite.Item) *gkvlite.Item {
@@ -246,6 +309,9 @@ func (w *World) callbacks() gkvlite.StoreCallbacks {
 	if m&CBFramed != 0 {
 		cb.BeforeItemWrite = func(c *gkvlite.Collection, i *gkvlite.Item) (*gkvlite.Item, error) { return FrameItem(i), nil }
 		cb.AfterItemRead = unframeAfterRead
+	}
+	if m&CBValFramed != 0 {
+		cb.ItemValLength, cb.ItemValWrite, cb.ItemValRead = valFramedLength, valFramedWrite, valFramedRead
 	}
 	if m&CBItemAlloc != 0 {
 		cb.ItemAlloc = func(c *gkvlite.Collection, keyLength uint32) *gkvlite.Item {
@@ -811,7 +877,7 @@ func (w *World) checkFormat(log []IOCall, before, after int64) {
 	}
 	got := r.ToRState()
 	want := w.M.Durable()
-	if w.CBMask&CBFramed != 0 {
+	if w.CBMask&AnyFramed != 0 {
 		for n, c := range got.Colls {
 			for k, it := range c.Items {
 				body, err := Unframe(it.Val)
@@ -1192,9 +1258,7 @@ func (w *World) observeColl(label string, st *gkvlite.Store, c *gkvlite.Collecti
 	// totals
 	n, b, err := c.GetTotals()
 	wn, wb := mc.Totals()
-	if w.CBMask&CBFramed != 0 {
-		b = wb // see Totals
-	}
+	b = w.normBytes(b, wb, n)
 	if err != nil || n != wn || b != wb {
 		w.Fail(oracle, "totals", "%s: GetTotals(%q) = (%d,%d,%v), model (%d,%d)", label, name, n, b, err, wn, wb)
 	}
